@@ -6,7 +6,9 @@ import (
 	"bytes"
 	ejson "encoding/json"
 	"fmt"
+	"os"
 	"runtime"
+	"runtime/debug"
 	"strings"
 	"sync"
 	"testing"
@@ -360,6 +362,95 @@ func c04TailCheck(c c04Tail) vfResult {
 	return r
 }
 
+// ---- repeat: the same call, many times
+
+type c04Repeat struct {
+	X     vfB    `json:"x"`
+	Limit uint32 `json:"limit"`
+}
+
+// c04MetaSoup writes markup whose tags carry several, possibly conflicting, attributes in
+// arbitrary order (a meta with charset AND content, repeated attributes, two declarations).
+func c04MetaSoup(t *rapid.T) []byte {
+	var sb strings.Builder
+	sb.WriteString(rapid.SampledFrom([]string{"", "<!DOCTYPE html>", "<html><head>", "\xef\xbb\xbf<html>"}).Draw(t, "open"))
+	attrs := []string{"charset=koi8-r", "charset=\"iso-8859-5\"", "content=\"text/html; charset=windows-1251\"", "content='text/html;charset=big5'", "http-equiv=\"Content-Type\"", "http-equiv=refresh",
+		"name=\"description\"", "CHARSET=shift_jis", "content=\"charset=euc-kr\"", "data-x=\"charset=x\"", "lang=en"}
+	for i, n := 0, rapid.IntRange(1, 3).Draw(t, "ntags"); i < n; i++ {
+		sb.WriteString("<" + rapid.SampledFrom([]string{"meta", "META", "meta ", "link", "body"}).Draw(t, "tag"))
+		for j, k := 0, rapid.IntRange(1, 5).Draw(t, "nattrs"); j < k; j++ {
+			sb.WriteString(" " + rapid.SampledFrom(attrs).Draw(t, "attr"))
+		}
+		sb.WriteString(rapid.SampledFrom([]string{">", "/>", " >"}).Draw(t, "close"))
+	}
+	sb.WriteString(rapid.SampledFrom([]string{"", "</head>", "<body>caf\xe9</body>", "text"}).Draw(t, "rest"))
+	return []byte(sb.String())
+}
+
+func c04RepeatCheck(c c04Repeat) vfResult {
+	var r vfResult
+	x := []byte(c.X)
+	if string(x) == "slice longer than 4 GiB" { // replay of the special case
+		r.Err = c04Huge32()
+		return r
+	}
+	defer SetLimit(defaultLimit)
+	SetLimit(c.Limit)
+	first := vfChainStr(Detect(x))
+	for i := 1; i < 24; i++ {
+		var m *MIME
+		if i%2 == 0 || c.Limit > 1<<20 { // DetectReader allocates `limit` bytes
+			m = Detect(x)
+		} else {
+			m, _ = DetectReader(bytes.NewReader(x))
+		}
+		if got := vfChainStr(m); got != first {
+			r.Err = fmt.Errorf("call %d on the same %d bytes under limit %d answers %s, the first call answered %s; x=%s", i+1, len(x), c.Limit, got, first, vfQ(x))
+			return r
+		}
+	}
+	r.Nontrivial = len(x) > 0
+	r.Hash = vfHash(x, vfHashU(uint64(c.Limit)))
+	return r
+}
+
+// c04Huge32: a slice longer than 4 GiB (only its first pages are ever touched): lengths do
+// not fit 32 bits, limits do.
+func c04Huge32() error {
+	avail := 0
+	if b, err := os.ReadFile("/proc/meminfo"); err == nil {
+		for _, l := range strings.Split(string(b), "\n") {
+			if strings.HasPrefix(l, "MemAvailable:") {
+				fmt.Sscanf(strings.TrimSpace(strings.TrimPrefix(l, "MemAvailable:")), "%d", &avail)
+			}
+		}
+	}
+	if avail < 12<<20 { // kB
+		return nil
+	}
+	defer SetLimit(defaultLimit)
+	for _, extra := range []int{100, 3072, 5000} {
+		big := make([]byte, 1<<32+extra)
+		for i := copy(big, "plain text header, nothing else in the first kilobytes\n"); i < 6000; i++ {
+			big[i] = 'a'
+		}
+		big[4000] = 0x01 // beyond the limit below
+		for _, L := range []uint32{3072, 200} {
+			SetLimit(L)
+			got, want := vfChainStr(Detect(big)), vfChainStr(Detect(big[:L]))
+			if !strings.HasPrefix(want, "text/plain") {
+				return fmt.Errorf("harness: the %d-byte header is not text (%s)", L, want)
+			}
+			if got != want {
+				return fmt.Errorf("Detect on a %d-byte slice (2^32+%d) under limit %d answers %s, on its first %d bytes %s", len(big), extra, L, got, L, want)
+			}
+		}
+		big = nil
+		debug.FreeOSMemory()
+	}
+	return nil
+}
+
 // ---- immut: the caller's buffer is never modified
 
 type c04Immut struct {
@@ -490,6 +581,40 @@ func TestVerif_C04(t *testing.T) {
 					return rapid.SliceOfN(rapid.Byte(), 0, 40).Draw(t, l)
 				}
 				return c04Tail{H: h, T1: tail("t1"), T2: tail("t2")}
+			}})
+	}
+	if t.Failed() {
+		return
+	}
+	if vfOnlySub("repeat") {
+		if !vfReplayMode() && vfShard() == 0 {
+			err := c04Huge32()
+			var r vfResult
+			r.Nontrivial, r.Labels, r.Hash, r.Err = true, []string{"slice-longer-than-4GiB"}, vfHash([]byte("huge32")), err
+			vfStats.record(r, func() any { return map[string]any{"sub": "repeat", "case": "2^32+k byte slices under limits 3072 and 200"} })
+			if err != nil {
+				vfEnumFail(t, "C04", "repeat", c04Repeat{X: vfB("slice longer than 4 GiB")}, err)
+				return
+			}
+		}
+		vfRun(t, vfSub[c04Repeat]{Prop: "C04", Name: "repeat", Checks: vfN(4000, 400000), Check: c04RepeatCheck,
+			Gen: func(t *rapid.T) c04Repeat {
+				var x []byte
+				switch rapid.IntRange(0, 6).Draw(t, "k") {
+				case 0, 1:
+					x = c04MetaSoup(t)
+				case 2:
+					x = []byte(c12GenHTML(t).Doc)
+				case 3:
+					x = []byte(c12GenXML(t).Doc)
+				case 4:
+					x = []byte(c10Gen(t).Doc)
+				case 5:
+					x = []byte(c13GenFwd(t).Doc)
+				default:
+					x = vfGenAnyInput(t)
+				}
+				return c04Repeat{X: x, Limit: vfGenLimit(t, len(x))}
 			}})
 	}
 	if t.Failed() {
